@@ -83,7 +83,13 @@ def runPsh (kind multi hex : String) : String :=
   | .ok p =>
     let fuel := 4 * p.toks.length + 64
     let (evs, tail) := pushAll (multi == "1") (p.toks.length + 4) fuel ⟨Api.init p, []⟩ []
-    s!"{" ".intercalate evs} ; {tail}"
+    -- the consumer loop the theorems of Props/C17 speak about (`loadRepeat`) must tell the same story
+    let agrees := multi == "1" ||
+      (match loadRepeat (p.toks.length + 4) fuel ⟨Api.init p, []⟩ with
+       | .ok s' => tail == "DONE" && (s'.out.reverse.map fun (e, sp) => showEv e sp) == evs.filter (· != "/")
+       | .err e => tail == showErr e
+       | .panic x => tail == s!"PANIC {repr x}")
+    if agrees then s!"{" ".intercalate evs} ; {tail}" else "MODEL-INCONSISTENT loadRepeat vs pushAll"
 
 def showCallRes (c : Call) (r : Option (SaphyrModel.Res Ev)) : String :=
   let pre := match c with | .peek => "P:" | .next => "N:"
